@@ -48,6 +48,7 @@ def random_state(t, W):
 def run(ctx):
     feat = C.draw_features(ctx, allow=("subtypes", "constants", "neg", "numeric", "when"))
     feat["forall_eff"] = False
+    feat["hard_numbers"] = ctx.s("cfg").chance(1, 3)
     W = C.World(ctx, feat)
     ops = ctx.s("ops")
     try:
